@@ -597,6 +597,35 @@ pub fn build_world(geo: &mut Box<dyn Geo>, rng: &mut Xo, ext: f64, family: &'sta
             wb.sealed = true;
             wb
         }
+        "workspace" => {
+            // the checker also rejects everything outside the workspace — the box the space's
+            // bounds describe, widened by a hair so that a state within rounding of a bound is
+            // still valid — and the goal region sticks out of it: its target sits next to a
+            // face of the box (the `Reflect` sampler then returns goal samples outside the
+            // bounds, which the checker rejects)
+            let Some(bx) = leading_box(geo.spec()) else { return build_world(geo, rng, ext, "balls") };
+            let m = 1e-9 * ext;
+            let mut obs = vec![Obstacle::Outside { lo: bx.iter().map(|b| b.0 - m).collect(), hi: bx.iter().map(|b| b.1 + m).collect() }];
+            for _ in 0..rng.usize_in(0, 3) {
+                if let Some(c) = geo.sample(rng) {
+                    obs.push(Obstacle::Ball { c, r: rng.range(0.03, 0.2) * ext });
+                }
+            }
+            let world = WorldSpec { obstacles: obs };
+            geo.set_worlds(&[world.clone()]);
+            let (start, mut target) = match (sample_valid(&**geo, rng, 0, &any), sample_valid(&**geo, rng, 0, &any)) {
+                (Some(s), Some(t)) => (s, t),
+                _ => return open(geo, rng, "open"),
+            };
+            let gr = rng.range(0.05, 0.2) * ext;
+            let k = rng.below(bx.len() as u64) as usize;
+            let inset = gr * rng.range(0.02, 0.6);
+            target[k] = if rng.chance(0.5) { bx[k].0 + inset } else { bx[k].1 - inset };
+            if !(target[k] > bx[k].0 && target[k] < bx[k].1) || !geo.valid(0, &target) {
+                return open(geo, rng, "open");
+            }
+            WorldBuild { world, start, target, goal_radius: gr, family, sealed: false, start_invalid: false, goal_comp: None }
+        }
         "thin_wall" => {
             let bx = match leading_box(geo.spec()) {
                 Some(b) => b,
@@ -829,6 +858,9 @@ pub fn base(rng: &mut Xo, prop: &str, seed: u64, index: u64, o: &GenOpts) -> Sce
     let mut sampler = o.goal_sampler.unwrap_or_else(|| *rng.pick(&[GoalSampler::Fixed, GoalSampler::Harness, GoalSampler::Harness]));
     if wb.family == "zero_weight" && sampler != GoalSampler::Planner && rng.chance(0.5) {
         sampler = GoalSampler::Turn;
+    }
+    if wb.family == "workspace" && o.goal_sampler.is_none() {
+        sampler = *rng.pick(&[GoalSampler::Reflect, GoalSampler::Reflect, GoalSampler::Harness]);
     }
     // legal but non-canonical start: SO(2) components off by whole turns (the state types have
     // public fields and every space primitive accepts any angle)
